@@ -550,6 +550,15 @@ func (dec *Decoder) defaultDecode(t reflect.Type, p interface{}, tag byte) {
 	}
 }
 func (dec *Decoder) decodeError(t reflect.Type, tag byte) {
+	if dec.Error != nil {
+		// an earlier error is kept, but the value must still be consumed: leaving it in the buffer
+		// makes the following reads interpret its payload as tags (panics on bogus indexes)
+		err := dec.Error
+		var skipped interface{}
+		dec.decode(&skipped, tag)
+		dec.Error = err
+		return
+	}
 	if dec.Error == nil {
 		var iface interface{}
 		dec.decode(&iface, tag)
